@@ -25,7 +25,7 @@ def stages(tier):
                         "wait deadlocks under every schedule"))
     st.append(dict(label="B: bound 1, n<=3", harness="h_session", variant="sched",
                    configs=S.grid_small(1, bs=(64,), qs=(1, 2, 10) if not quick else (1, 10), nmax=3, endings=("close", "destroy")) +
-                           S.grid_small(1, bs=(16,), cs=(8, 15, 16, 17, 64), qs=(1, 3), nmax=2, endings=("close",)),
+                           ([] if quick else S.grid_small(1, bs=(16,), cs=(8, 15, 16, 17, 64), qs=(1, 3), nmax=2, endings=("close",))),
                    share=0.3, what="every single deviation from the default schedule"))
     if quick:
         c = (S.grid_small(2, bs=(64,), cs=(32, 64, 256), qs=(1,), nmax=2, endings=("close",)) +
@@ -36,7 +36,7 @@ def stages(tier):
     st.append(dict(label="C: bound 2", harness="h_session", variant="sched", configs=c, share=0.6, chunk=2,
                    what="every pair of deviations"))
     st.append(dict(label="S: stream stage alone, deviation bound 2 and preemption bound 2", harness="h_stream", variant="sched",
-                   configs=S.stream_grid(2, 0) + S.stream_grid(2, 1) + ([] if quick else S.stream_grid(3, 0, 18)), share=0.3, reserve=25,
+                   configs=S.stream_grid(2, 0) + ([] if quick else S.stream_grid(2, 1) + S.stream_grid(3, 0, 18)), share=0.3, reserve=18,
                    what="bare UncompressedFile, producer (raw writes of w bytes / appended containers of w bytes, then setFileSize) and consumer "
                         "(reads of r bytes + dropOldData) for all (w,r,b,c) in {1..6}^4: every ordering of the four sizes"))
     if not quick:
@@ -45,7 +45,7 @@ def stages(tier):
                                S.grid_small(3, bs=(64,), cs=(64,), qs=(1,), nmax=2, endings=("close",), sizes=[48], earlies=False),
                        share=0.5))
     # long sessions at the real default sizes: exhaustive static-priority family with one priority change
-    stride = 256 if quick else 8
+    stride = 512 if quick else 8
     big = []
     for mode in "rw":
         for objs, q in (([48] * 200, 10), ([48] * 40 + [300000] + [48] * 40, 10), ([70000] * 12, 3)):
@@ -53,7 +53,7 @@ def stages(tier):
                 big.append(S.cfg(mode, objs, 0, 0x20000, q, -1, "close", static=1, bound=1, maxfree=stride,
                                  shard="%d/8" % sh, horizon=4000000, inv=1))
     st.append(dict(label="E: long sessions, static priorities + one change", harness="h_session", variant="sched",
-                   configs=big, share=0.5, chunk=1, reserve=8,
+                   configs=big, share=0.5, chunk=1, reserve=12,
                    what="200-object / large-object sessions at the default buffer (128 KiB) and container size: all 6 priority orders "
                         "of (application, codec thread, compression thread) and, for each, a switch to each other order at every "
                         "%d-th scheduling point" % stride))
@@ -61,4 +61,4 @@ def stages(tier):
 
 
 def main(argv):
-    return schedcheck.run_stages("C06", argv, stages, assumptions=ASSUME)
+    return schedcheck.run_stages("C06", argv, stages, assumptions=ASSUME, budget={"quick": 125.0, "thorough": 1500.0})
